@@ -13,8 +13,8 @@ META = {
 
 def run(ctx):
     vlib.standard_proof_stage(ctx)
-    n = 250 if ctx.quick else 14000
-    maxops = 12 if ctx.quick else 40
+    n = 250 if ctx.quick else 2000
+    maxops = 12 if ctx.quick else 30
     for profile in ("debug", "release"):
         binary, log = vlib.cargo_build(profile=profile, bin_name="h_chacha")
         if binary is None:
